@@ -1218,3 +1218,7 @@ package lorawan
 //@   props C05
 //@ func lemmaC05_fopts_cipher
 //@   props C05
+//@ func lemmaC01_frm_commands
+//@   props C01
+//@   uses registry_ok
+//@   inlines (*PHYPayload).UnmarshalBinary (*MACPayload).UnmarshalBinary (*FHDR).UnmarshalBinary (PHYPayload).MarshalBinary (MACPayload).MarshalBinary (MACPayload).marshalPayload (FHDR).MarshalBinary (MACCommand).MarshalBinary (*PHYPayload).DecodeFRMPayloadToMACCommands decodeDataPayloadToMACCommands (*MACCommand).UnmarshalBinary
